@@ -117,6 +117,7 @@ struct Transport::Impl
   {
     std::condition_variable cv;
     bool done{false};
+    bool abandoned{false}; // the caller gave up (timeout / teardown) and will not take the session id
     ConnectResult result{ConnectResult::err(TransportErrorInfo{TransportError::Timeout, "pending"})};
   };
   std::mutex syncMutex;
@@ -317,6 +318,12 @@ struct Transport::Impl
           auto it = pendingConnects.find(sid);
           if (it != pendingConnects.end())
           {
+            if (it->second->abandoned)
+            {
+              // The caller already returned Timeout/ShuttingDown for this id. Keep the
+              // entry so the close that follows is suppressed too (the id never escaped).
+              return;
+            }
             op = it->second;
             op->result = ConnectResult::ok(sid);
             op->done = true;
@@ -832,6 +839,7 @@ inline ConnectResult Transport::connectSync(const std::string &host, std::uint16
     // Woken by teardown. Do NOT erase pendingConnects (teardown owns and is
     // iterating the maps, L-NEW-1) and do NOT touch engine->close (engine is
     // being torn down, M-1). The guard decrements activeConnects on return.
+    op->abandoned = true;
     return ConnectResult::err(
       TransportErrorInfo{TransportError::ShuttingDown, "transport shutting down"});
   }
@@ -854,6 +862,7 @@ inline ConnectResult Transport::connectSync(const std::string &host, std::uint16
   // returning so connectGuard's dtor (the activeConnects decrement, a syncMutex-
   // guarded mutation) runs UNDER the lock — it destructs before `lk` because it
   // is declared after it.
+  op->abandoned = true; // a connect completing from here on must not erase the entry
   lk.unlock();
   _impl->engine->close(sid);
   lk.lock();
